@@ -12,8 +12,12 @@ props = [json.loads(l) for l in (ROOT / "properties.jsonl").read_text().splitlin
 ids = [p["id"] for p in props]
 checks, na = [], []
 pending = json.loads((ROOT / "tools" / "not_claimed.json").read_text()) if (ROOT / "tools" / "not_claimed.json").exists() else {}
+claimed = set((ROOT / "tools" / "claimed.txt").read_text().split())
 for pid in ids:
     f = ROOT / "props" / (pid.lower() + ".py")
+    if pid not in claimed:
+        na.append(dict(property_id=pid, reason=pending.get(pid, "check under construction: not yet integrated and validated on the unchanged tree, so nothing is claimed for it")))
+        continue
     if not f.exists():
         na.append(dict(property_id=pid, reason=pending.get(pid, "no check registered yet: model/theorem/correspondence for this property are not built; nothing is claimed")))
         continue
